@@ -94,4 +94,9 @@ CrossJudge(sp, n, accepted) ==
   IF n \in Names(sp) THEN (IF accepted THEN "ok" ELSE "KnownNameAccepted")
   ELSE IF accepted THEN "NameRejectedInForeignClosedSpace" ELSE "ok"
 TagJudge(what, tag) == IF tag # Tags[what] THEN "RegisteredCborTag" ELSE "ok"
+\* parsing an item of kind `what` that carries tag number `tag` (-2: a number beyond 32 bits) in a head of any well-formed width
+ParseTagJudge(what, tag, accepted) ==
+  IF tag # Tags[what] /\ accepted THEN "ForeignTagRefused"
+  ELSE IF tag = Tags[what] /\ ~accepted THEN "RegisteredTagAcceptedInEveryHeadWidth"
+  ELSE "ok"
 =============================================================================
